@@ -3,6 +3,8 @@ CONSTANTS
   MinN = 0
   MaxN = 6
   TwinMaxN = 5
+  SubMaxN = 3
+  OutputCopy = "same"
   GuiseMaxN = 4
   GuiseTest = "callable"
   ArgSwap = "none"
